@@ -25,7 +25,7 @@ pub struct SchemaOpts {
 
 impl Default for SchemaOpts {
     fn default() -> Self {
-        SchemaOpts { multi_ns: false, chains: false, allow_enum: true, allow_tags: true, allow_ext: true }
+        SchemaOpts { multi_ns: true, chains: false, allow_enum: true, allow_tags: true, allow_ext: true }
     }
 }
 
@@ -106,6 +106,14 @@ pub fn gen_schema(t: &mut Tape, o: &SchemaOpts) -> RSchema {
     if has_group {
         actions.push(RAction { ns: ns_main.to_string(), id: "all".into(), principals: vec![], resources: vec![], context: RAttrs::new(), member_of: vec![] });
     }
+    // optionally a pure group declared in the other namespace (cross-namespace action membership)
+    let foreign_group = match ns_other {
+        Some(o2) if t.coin() => {
+            actions.push(RAction { ns: o2.to_string(), id: "readOnly".into(), principals: vec![], resources: vec![], context: RAttrs::new(), member_of: vec![] });
+            Some(actions[actions.len() - 1].uid())
+        }
+        _ => None,
+    };
     for i in 0..n_act {
         let pick_types = |t: &mut Tape| -> Vec<String> {
             let k = 1 + t.weighted(&[3, 1]);
@@ -123,11 +131,19 @@ pub fn gen_schema(t: &mut Tape, o: &SchemaOpts) -> RSchema {
         let context = gen_attrs(t, 2, &names, o, 3);
         let mut member_of = Vec::new();
         if has_group && t.coin() {
-            member_of.push("all".to_string());
+            member_of.push(Uid { ty: if ns_main.is_empty() { "Action".to_string() } else { format!("{ns_main}::Action") }, id: "all".to_string() });
+        }
+        if let Some(g) = &foreign_group {
+            if t.coin() {
+                member_of.push(g.clone());
+            }
         }
         if i > 0 && t.bool_p(1, 4) {
             // an action that is also a group for a later one
-            member_of.push(actions[actions.len() - 1].id.clone());
+            let prev = &actions[actions.len() - 1];
+            if prev.ns == ns_main && !prev.principals.is_empty() {
+                member_of.push(prev.uid());
+            }
         }
         actions.push(RAction { ns: ns_main.to_string(), id: ACTION_IDS[aperm[i]].to_string(), principals, resources, context, member_of });
     }
@@ -253,7 +269,7 @@ pub fn action_entities(s: &RSchema) -> World {
     for a in &s.actions {
         let mut d = EntityData::default();
         for g in &a.member_of {
-            d.parents.insert(Uid { ty: a.ty(), id: g.clone() });
+            d.parents.insert(g.clone());
         }
         w.entities.insert(a.uid(), d);
     }
@@ -652,13 +668,33 @@ impl<'a> TGen<'a> {
             let g = conj(guards[..guards.len() - 1].to_vec(), guards[guards.len() - 1].clone());
             return E::If(b(g), b(E::bool(false)), b(atom));
         }
+        if self.trap_here(t, "guard-in-if-condition") {
+            // the guard only holds in the `then` branch; the else branch can be true as well
+            let g = conj(guards[..guards.len() - 1].to_vec(), guards[guards.len() - 1].clone());
+            let then_b = if t.coin() { E::bool(true) } else { self.boolean(t, 0) };
+            let else_b = if t.coin() { E::bool(true) } else { self.boolean(t, 0) };
+            return E::And(b(E::If(b(g), b(then_b), b(else_b))), b(atom));
+        }
+        if self.trap_here(t, "guard-under-or") {
+            // (guard || other) && use
+            let g = conj(guards[..guards.len() - 1].to_vec(), guards[guards.len() - 1].clone());
+            let other = self.boolean(t, 0);
+            let disj = if t.coin() { E::Or(b(g), b(other)) } else { E::Or(b(other), b(g)) };
+            return E::And(b(disj), b(atom));
+        }
         if self.trap_here(t, "guard-after-use") {
             let g = conj(guards[..guards.len() - 1].to_vec(), guards[guards.len() - 1].clone());
             return E::And(b(atom), b(g));
         }
         // documented idioms
-        match t.upto(3) {
+        match t.upto(4) {
             0 | 1 => conj(guards, atom),
+            2 => {
+                // guard conjoined with an unrelated condition first: (g && c) && use
+                let g = conj(guards[..guards.len() - 1].to_vec(), guards[guards.len() - 1].clone());
+                let c = self.boolean(t, 0);
+                E::And(b(E::And(b(g), b(c))), b(atom))
+            }
             _ => {
                 let g = conj(guards[..guards.len() - 1].to_vec(), guards[guards.len() - 1].clone());
                 E::If(b(g), b(atom), b(E::bool(t.coin())))
@@ -727,8 +763,10 @@ pub fn gen_policy_for(t: &mut Tape, s: &RSchema, a: &RAction, ptype: &str, rtype
         2 if !groups.is_empty() => ActC::In(groups[t.upto(groups.len())].clone()),
         3 if self_exclusive => {
             let mut v = vec![a.uid()];
-            if !groups.is_empty() && t.coin() {
-                v.push(groups[t.upto(groups.len())].clone());
+            // a set literal must be homogeneous in strict mode: only groups of the action's own entity type
+            let same: Vec<&Uid> = groups.iter().filter(|g| g.ty == a.ty()).collect();
+            if !same.is_empty() && t.coin() {
+                v.push(same[t.upto(same.len())].clone());
             }
             ActC::InSet(v)
         }
